@@ -2,7 +2,7 @@
 run them on the real executor, evaluate the Lean checker on the implementation trace, diff against the model."""
 import copy, json, random, time
 from fractions import Fraction as F
-from common import Driver, short_hash
+from common import TieBroken, Driver, short_hash
 import layer_e
 from layer_e import run_impl, run_model, first_divergence, NonLattice, quantum, to_q
 
@@ -44,7 +44,7 @@ def etrace_json(sc, obs):
 def lean_check(drv, prop, sc, obs):
     r = drv.send(f"check {prop} " + json.dumps(etrace_json(sc, obs), separators=(",", ":")))
     if not r.get("ok"):
-        raise RuntimeError(f"driver could not evaluate check_{prop}: {r}")
+        raise (TieBroken if r.get("err") == "parse" else RuntimeError)(f"driver could not evaluate check_{prop}: {r}")
     return r["fails"]
 
 
